@@ -317,3 +317,15 @@ def run(cx, out):
             mirpanic = None
         if mirpanic:
             mirpanic.check_decode_panics(out, facts)
+        # compact canonicality / width guards and reachability of arithmetic panics in the compact decoders (C04 R04.2)
+        from . import c04
+        c04.check_decoders(out, facts, None)
+    out.rule('R04.2', 'compact decoders: accepted set = canonical forms of values of the width; no panic reachable for any first byte (delegated rule of C04)')
+    # derived decoders: the derive corpus of C05
+    from . import c05 as _c05
+    from ..report import Out as _Out
+    _sub = _Out('C05')
+    _c05.run(cx, _sub)
+    out.rule('R05.2', 'derived decoders accept exactly the declared index bytes and read the declared representation (derive corpus of C05)')
+    out.rule('R05.5', 'derived in-place decode_into reads the same representation as decode')
+    out.absorb(_sub, {'R05.2', 'R05.5'})
